@@ -156,13 +156,19 @@ def make_generated(rng, kind):
                         argv=["compare", "--ignore-sample-name", "--names", "x,y", "--tsv-pairwise", "{out:pair.tsv}", "{W}/a.vcf", "{W}/c.vcf"]))
     elif kind == "polyploid-blocks":
         ploidy = rng.choice([3, 4, 4])
-        w = W.gen_core(rng, n_chroms=1, n_samples=rng.choice([1, 1, 2]), ploidy=ploidy, kinds=["snv"], length=rng.choice([2000, 3000]),
+        w = W.gen_core(rng, n_chroms=1, n_samples=rng.choice([1, 2, 2]), ploidy=ploidy, kinds=["snv"], length=rng.choice([2000, 3000]),
                        n_variants=rng.choice([20, 30, 45]), het_rate=0.9, min_gap=25)
         W.gen_library(rng, w, "L0", depth=rng.choice([20, 30, 40]), read_len=(200, 500), cuts=rng.choice([2, 3, 4, 5]))
         files = [{"kind": "ref", "name": "ref.fa"}, {"kind": "bam", "lib": "L0", "name": "reads.bam"}, {"kind": "vcf", "name": "in.vcf"}]
         base = {"world": W.clean_world(w), "files": files, "stdout": None, "expect_exit": 0}
         out.append(dict(base, name="gen-polyphase-blocks", subcommand="polyphase",
                         argv=["polyphase", "-o", "{out:phased.vcf}", "--ploidy", str(ploidy), "--reference", "{W}/ref.fa", "--threads", "{threads}", "{W}/in.vcf", "{W}/reads.bam"]))
+        if len(w["samples"]) > 1:
+            # one sample comes with a pre-phasing, the other without: per-sample options must not leak between samples
+            files.append({"kind": "vcf", "name": "pre.vcf", "phased": "PS", "psamples": [w["samples"][rng.randrange(len(w["samples"]))]], "nsets": rng.choice([1, 2])})
+            out.append(dict(base, name="gen-polyphase-prephasing-mixed", subcommand="polyphase",
+                            argv=["polyphase", "-o", "{out:phased.vcf}", "--ploidy", str(ploidy), "--reference", "{W}/ref.fa", "--threads", "{threads}",
+                                  "--use-prephasing", "-B", rng.choice(["0", "1", "2"]), "{W}/pre.vcf", "{W}/reads.bam"]))
         out.append(dict(base, name="gen-polyphase-blocks-B1", subcommand="polyphase",
                         argv=["polyphase", "-o", "{out:phased.vcf}", "--ploidy", str(ploidy), "--reference", "{W}/ref.fa", "--threads", "{threads}",
                               "-B", rng.choice(["0", "1", "3", "5"]), "--include-haploid-sets", "{W}/in.vcf", "{W}/reads.bam"]))
@@ -298,7 +304,7 @@ def materialise_world(sc, dirpath):
         elif f["kind"] in ("vcf", "vcfgz"):
             ww = w
             if f.get("phased"):
-                ww = phased_copy(w, truth=f.get("truth", "main"), tag=f["phased"], nsets=f.get("nsets", 1))
+                ww = phased_copy(w, truth=f.get("truth", "main"), tag=f["phased"], nsets=f.get("nsets", 1), samples=f.get("psamples"))
             if f.get("rename"):
                 ww = copy.deepcopy(ww)
                 ren = f["rename"]
